@@ -45,7 +45,7 @@ one was found and `no-failing-input-found` otherwise (§2.4).
 | C15 | `TrainingSet`; 9 | real training-set directories at exact rationals | ≈ 5 s |
 | C16 | `Container`; 11 | h5 dumps + fault injection at every write | ≈ 55 s |
 | C17 | `Features`; 26 | stub datasets at exact rationals; names exhaustively | ≈ 10 s |
-| C19 | `Profile`, `Legacy` (the key=value parser) + generated defaults; 11 + 12 | files + scripted input; every generated legacy file parsed by both | ≈ 10 s |
+| C19 | `Profile`, `Legacy` (the key=value parser) + generated defaults; 11 + 14 | files + scripted input; every generated legacy file parsed by both | ≈ 10 s |
 | C20 | `Loading`; 10 | recorded reader progress; real maps | ≈ 10 s |
 
 ### 9.2 Genuine defects found and repaired in `/repo` (one `fix:` commit each; unedited 176 tests pass)
